@@ -344,7 +344,7 @@ def run_prog(case):
     if d:
         rec["status"] = "violation"
         rec["viol"] = dict(d, oracle="pandas_program", ops=programs.program_ops(prog), src=programs.program_source(prog), shuffle=method,
-                           classes=progcase.plan_classes(b.out_dx.expr))
+                           classes=progcase.plan_classes(b.out_dx.expr), first_diff_got_nan=("~na" in str(d.get("got", "")) and "~na" not in str(d.get("exp", ""))))
         rec["case"] = {"kind": "prog", "prog": prog}
     if case.get("gen") and case["gen"][1] == 2:
         rec["sample"] = {"program": programs.program_source(prog)}
